@@ -149,10 +149,10 @@ func tunnelled(m int) bool { return m >= 65 && m <= 254 }
 var faults = map[int][]string{
 	22:  {"to0d-hash", "nonce", "to1d-signer-stranger", "to1d-signer-mfg", "to1d-sig-flip", "no-entries", "entry-sig-flip", "ttl-zero", "header-from-other-voucher", "to1d-sig-short", "to1d-signer-former-owner"},
 	30:  {"unknown-guid"},
-	32:  {"nonce", "ueid-guid", "ueid-type", "signer", "sig-flip", "no-nonce-claim", "null-payload", "other-device", "nonce-type"},
+	32:  {"nonce", "nonce-empty", "nonce-prefix", "ueid-guid", "ueid-type", "signer", "sig-flip", "no-nonce-claim", "null-payload", "other-device", "nonce-type"},
 	60:  {"unknown-guid", "kex-invalid", "cipher-unknown", "sigtype-mismatch"},
 	62:  {"index-len", "index-neg", "index-big"},
-	64:  {"nonce", "ueid", "signer", "sig-flip", "no-setup-nonce", "no-fdo-claim", "xb-garbage", "null-payload", "alg-unknown", "other-device", "alg-512", "sig-short"},
+	64:  {"nonce", "nonce-empty", "nonce-prefix", "ueid", "signer", "sig-flip", "no-setup-nonce", "no-fdo-claim", "xb-garbage", "null-payload", "alg-unknown", "other-device", "alg-512", "sig-short"},
 	70:  {"nonce"},
 	255: {"prev-0", "prev-99", "prev-255"}, // error messages naming a previous message type outside every protocol
 }
